@@ -41,4 +41,35 @@ unsigned g_sc_n; size16_t g_sc_rule, g_sc_term; uint8_t g_sc_res; unsigned g_red
 bool vx_add_situation_any(size16_t state_idx, size32_t sit_idx, bool to_kernel)
 __CPROVER_requires(state_idx < state_count_cap && state_idx < state_count && sit_idx < situation_address_space_size)
 __CPROVER_assigns(vx_thrown, simple_states[state_idx], states__all_situations_vec[state_idx], states__kernel[state_idx], __CPROVER_object_upto(&states__situations_by_symbol[state_idx][0], sizeof(states__situations_by_symbol[0])))
-__CPROVER_ensures(vx_thrown == 0);
+/* what add_situation/post gives for the item set: the item is in it afterwards and nothing is ever removed */
+__CPROVER_ensures(vx_thrown == 0 && simple_states[state_idx].N == __CPROVER_old(simple_states[state_idx]).N && VX_BIT(simple_states[state_idx], sit_idx) == 1
+   && __CPROVER_forall { size_t vq_aa; (vq_aa < CB_WORDS) ==> ((simple_states[state_idx].data[vq_aa] & __CPROVER_old(simple_states[state_idx]).data[vq_aa]) == __CPROVER_old(simple_states[state_idx]).data[vq_aa]) });
+
+/* ---- closure(): FIRST / nullable of the rest of the right side, as the (memoising) analysis functions return them.
+   They are abstract here: closure must generate exactly what they dictate (their own correctness is a separate matter, finding D4) ---- */
+bool g_sp_empty; struct cbitset g_sp_first; size_t g_ci, g_ct;
+bool vx_rss_empty(const struct rule_info* ri, size_t start)
+__CPROVER_requires(__CPROVER_r_ok(ri, sizeof(*ri)) && start <= max_rule_element_count)
+__CPROVER_assigns()
+__CPROVER_ensures(__CPROVER_return_value == g_sp_empty);
+const struct cbitset* vx_rss_first(const struct rule_info* ri, size_t start)
+__CPROVER_requires(__CPROVER_r_ok(ri, sizeof(*ri)) && start <= max_rule_element_count)
+__CPROVER_assigns()
+__CPROVER_ensures(__CPROVER_return_value == &g_sp_first);
+#define C_RI (gi.rule_infos[g_it_ri])
+#define C_INCOMPLETE (g_it_after < C_RI.r_elements)
+#define C_SYM (gi.right_sides[C_RI.r_idx][g_it_after])
+#define C_SL (gi.nterm_rule_slices[C_SYM.idx])
+/* closure is verified for ANY item encoding: make_situation_idx is replaced by a lookup in an arbitrary ghost table (no multiplication in the proof);
+   that the real encoding is a dense injective code is make_situation_idx/post + make_situation_info/post */
+size32_t g_enc[PH_RULES][PH_MAXLEN + 1][PH_TERMS];
+size32_t vx_enc(struct situation_info info)
+__CPROVER_requires(info.rule_info_idx < rule_count && info.after < situation_size && info.t < term_count)
+__CPROVER_assigns()
+__CPROVER_ensures(__CPROVER_return_value == g_enc[info.rule_info_idx][info.after][info.t] && __CPROVER_return_value < situation_address_space_size);
+#define C_ENC_OK (__CPROVER_forall { size_t vq_enc; (vq_enc < PH_RULES * (PH_MAXLEN + 1) * PH_TERMS) ==> g_enc[vq_enc / ((PH_MAXLEN + 1) * PH_TERMS)][(vq_enc / PH_TERMS) % (PH_MAXLEN + 1)][vq_enc % PH_TERMS] < situation_address_space_size })
+#define C_ITEM(i, t) (g_enc[C_SL.start + (i)][0][t])
+#define C_GEN(t) (VX_BIT(g_sp_first, t) == 1 || (g_sp_empty && (t) == g_it_t))
+#define C_CNT(t) ((size_t)(0 < (t) && VX_BIT(g_sp_first, 0)) + (size_t)(1 < (t) && VX_BIT(g_sp_first, 1)) + (size_t)(2 < (t) && VX_BIT(g_sp_first, 2)) + (size_t)(3 < (t) && VX_BIT(g_sp_first, 3)))
+#define C_CL (closures[sit_idx])
+#define C_IN_CL(x) (__CPROVER_exists { size_t vq_ex; (vq_ex < VX_CAP) && (vq_ex < C_CL.current_size && C_CL.the_data[vq_ex] == (x)) })
